@@ -6,20 +6,6 @@ use crate::verif_spec::*;
 #[cfg(target_arch = "x86_64")]
 use core::arch::x86_64::*;
 
-unsafe fn model_intrinsic(a: __m128i, b: __m128i) -> __m128i {
-    // Intel SDM PACKSSWB: 16 -> 8 bit signed saturation, a then b
-    let a: [i16; 8] = core::mem::transmute(a);
-    let b: [i16; 8] = core::mem::transmute(b);
-    let mut r = [0i8; 16];
-    let mut i = 0;
-    while i < 8 {
-        r[i] = if a[i] > 127 { 127 } else if a[i] < -128 { -128 } else { a[i] as i8 };
-        r[i + 8] = if b[i] > 127 { 127 } else if b[i] < -128 { -128 } else { b[i] as i8 };
-        i += 1;
-    }
-    core::mem::transmute(r)
-}
-
 fn ref_byte4(b: &[u32], q1: u32, q2: u32, q3: u32) -> u8 {
     ref_dibit_class(b[0], q1, q2, q3) | ref_dibit_class(b[1], q1, q2, q3) << 2 | ref_dibit_class(b[2], q1, q2, q3) << 4 | ref_dibit_class(b[3], q1, q2, q3) << 6
 }
@@ -31,7 +17,7 @@ unsafe fn model_sub(buckets: &[u32], q1: u32, q2: u32, q3: u32) -> u8 {
 // @ob id=agg.x86_sse2.sub_aggregation.eq_ref props=C07,C01,C17 rows=simd,simd-unsafe quick=simd kind=HC+stub fn=generate::bucket_aggregation::x86_sse2::sub_aggregation domain="all 4 buckets x all ordered quartiles (_mm_packs_epi16 by its SDM model)" replay=native
 #[kani::proof]
 #[kani::unwind(34)]
-#[kani::stub(core::arch::x86_64::_mm_packs_epi16, model_intrinsic)]
+#[kani::stub(core::arch::x86_64::_mm_packs_epi16, verif_support::x86_shuffle::mm_packs_epi16)]
 fn ob_sub_aggregation() {
     let b: [u32; 4] = kani::any();
     let (q1, q2, q3): (u32, u32, u32) = kani::any();
